@@ -165,6 +165,122 @@ def canonical_parser_setters(program):
     return n
 
 
+def devirtualise_shared_tables(program):
+    """`self.__handlers[key](self, x)` / `_HANDLERS[key](x)` where the table is a class-level / module-level dict literal with
+    constant keys and plain function names as values, called at statement level, becomes the if/elif chain over the keys
+    (KeyError when none matches).  Returns the number of rewritten call sites."""
+    count = 0
+
+    def table_of(expr, f):
+        # self.T / Cls.T / T
+        if isinstance(expr, ast.Attribute) and isinstance(expr.value, ast.Name) and f.cls is not None and (
+                (f.params and expr.value.id == f.params[0]) or expr.value.id == f.cls.name):
+            want = expr.attr
+            for c in program.mro(f.cls):
+                for nm, v in c.attrs.items():
+                    if nm == want or inline_mangle(c.name, nm) == want or inline_mangle(c.name, nm) == inline_mangle(f.cls.name, want):
+                        if isinstance(v, ast.Dict):
+                            # the name must be bound once in the class body and never stored through self
+                            return v, c
+            return None, None
+        if isinstance(expr, ast.Name):
+            v = f.module.assigns.get(expr.id)
+            if isinstance(v, ast.Dict):
+                return v, None
+        return None, None
+
+    def usable(d):
+        return d.keys and all(isinstance(k, ast.Constant) for k in d.keys) and all(isinstance(v, ast.Name) for v in d.values)
+
+    def rewrite(st, f):
+        nonlocal count
+        call = st.value if isinstance(st, (ast.Expr, ast.Assign, ast.Return)) else None
+        if not isinstance(call, ast.Call) or not isinstance(call.func, ast.Subscript):
+            return None
+        key = call.func.slice
+        if not isinstance(key, (ast.Name, ast.Constant)):
+            return None
+        d, owner = table_of(call.func.value, f)
+        if d is None or not usable(d):
+            return None
+        args = list(call.args)
+        if owner is not None:
+            # class-level table of plain functions: called with the object as first argument
+            if not args or not isinstance(args[0], ast.Name) or not f.params or args[0].id != f.params[0]:
+                return None
+            if not all(v.id in owner.methods for v in d.values):
+                return None
+            args = args[1:]
+        else:
+            if not all(v.id in f.module.funcs for v in d.values):
+                return None
+
+        def variant(v):
+            if owner is not None:
+                fn = ast.Attribute(value=ast.Name(id=f.params[0], ctx=ast.Load()), attr=v.id, ctx=ast.Load())
+            else:
+                fn = ast.Name(id=v.id, ctx=ast.Load())
+            c = ast.Call(func=fn, args=[inline.clone(a) for a in args], keywords=[inline.clone(k) for k in call.keywords])
+            if isinstance(st, ast.Expr):
+                new = ast.Expr(value=c)
+            elif isinstance(st, ast.Return):
+                new = ast.Return(value=c)
+            else:
+                new = ast.Assign(targets=[inline.clone(t) for t in st.targets], value=c)
+            return new
+        chain = [ast.Raise(exc=ast.Call(func=ast.Name(id="KeyError", ctx=ast.Load()), args=[inline.clone(key)], keywords=[]), cause=None)]
+        for k, v in reversed(list(zip(d.keys, d.values))):
+            chain = [ast.If(test=ast.Compare(left=inline.clone(key), ops=[ast.Eq()], comparators=[inline.clone(k)]), body=[variant(v)], orelse=chain)]
+        for n in ast.walk(chain[0]):
+            if isinstance(n, (ast.stmt, ast.expr)):
+                n.lineno, n.col_offset = st.lineno, st.col_offset
+                n.end_lineno, n.end_col_offset = getattr(st, "end_lineno", st.lineno), getattr(st, "end_col_offset", 0)
+        count += 1
+        return chain
+
+    def block(stmts, f):
+        out = []
+        for st in stmts:
+            if isinstance(st, (ast.FunctionDef, ast.AsyncFunctionDef, ast.ClassDef)):
+                out.append(st)
+                continue
+            for owner, fld, lst in inline._stmt_lists(st):
+                setattr(owner, fld, block(lst, f))
+            rep = rewrite(st, f)
+            out.extend(rep if rep is not None else [st])
+        return out
+    for m in program.modules.values():
+        for f in list(m.funcs.values()) + [f for c in m.classes.values() for f in c.methods.values()]:
+            before = count
+            f.node.body = block(f.node.body, f)
+            if count != before:
+                inline.relink(f.node, getattr(f.node, "_parent", None))
+    if count:
+        # a table nothing reads any more is dropped (its values would otherwise keep the handlers alive as separate units)
+        for m in program.modules.values():
+            for c in m.classes.values():
+                for st in list(c.node.body):
+                    if isinstance(st, ast.Assign) and len(st.targets) == 1 and isinstance(st.targets[0], ast.Name) and isinstance(st.value, ast.Dict):
+                        nm = st.targets[0].id
+                        mg = inline_mangle(c.name, nm)
+                        read = False
+                        for n in ast.walk(m.tree):
+                            if isinstance(n, ast.Attribute) and n.attr in (nm, mg):
+                                read = True
+                            elif isinstance(n, ast.Name) and n.id == nm and isinstance(n.ctx, ast.Load):
+                                read = True
+                        if not read and usable(st.value):
+                            c.node.body.remove(st)
+                            c.attrs.pop(nm, None)
+    return count
+
+
+def inline_mangle(cls, name):
+    if name.startswith("__") and not name.endswith("__"):
+        return "_%s%s" % (cls.lstrip("_"), name)
+    return name
+
+
 def normalise(program):
     known = _known()
     skipped = []
@@ -204,6 +320,30 @@ def normalise(program):
             return False  # SASL mechanisms are selected by name at run time
         return True
 
+    nested_cache = {}
+
+    def local_def(caller, name):
+        """A function defined once, directly in the caller's body, and only ever called there (a named step): its free names
+        are the caller's variables at the time of the call, which is what a copy of its body at the call site reads."""
+        key = (id(caller.node), name)
+        if key in nested_cache:
+            return nested_cache[key]
+        res = None
+        defs = [st for st in caller.node.body if isinstance(st, ast.FunctionDef) and st.name == name]
+        if len(defs) == 1 and not defs[0].decorator_list:
+            d = defs[0]
+            other = 0
+            for n in ast.walk(caller.node):
+                if isinstance(n, ast.Name) and n.id == name:
+                    par = getattr(n, "_parent", None)
+                    if not (isinstance(n.ctx, ast.Load) and isinstance(par, ast.Call) and par.func is n) or inline._inside(n, d):
+                        other += 1
+            if not other:
+                from sa.model import Func
+                res = Func(d, caller.module, cls=None, outer=caller)
+        nested_cache[key] = res
+        return res
+
     def resolve(call, caller):
         fn = call.func
         h = None
@@ -220,6 +360,9 @@ def normalise(program):
                         h = c.methods[fn.attr]
                         break
         elif isinstance(fn, ast.Name):
+            nested = local_def(caller, fn.id)
+            if nested is not None:
+                return nested
             h = caller.module.funcs.get(fn.id)
         return h if is_unknown_helper(h) else None
 
@@ -255,6 +398,10 @@ def normalise(program):
             except Exception as e:
                 skipped.append("dispatch %s: %s" % (f.qualname, type(e).__name__))
                 continue
+    try:
+        stats["dispatch_tables_expanded"] += devirtualise_shared_tables(program)
+    except Exception as e:
+        skipped.append("shared tables: %s" % type(e).__name__)
     stats["walrus_hoisted"] = 0
     for m in program.modules.values():
         for f in list(m.funcs.values()) + [f for c in m.classes.values() for f in c.methods.values()]:
@@ -264,15 +411,50 @@ def normalise(program):
                 skipped.append("walrus %s: %s" % (f.qualname, type(e).__name__))
                 continue
 
+    stats["assignments_simplified"] = 0
+    for m in program.modules.values():
+        for f in list(m.funcs.values()) + [f for c in m.classes.values() for f in c.methods.values()]:
+            try:
+                stats["assignments_simplified"] += inline.simplify_assignments(f.node)
+            except Exception as e:
+                skipped.append("assignments %s: %s" % (f.qualname, type(e).__name__))
+                continue
+    stats["conditionals_lifted"] = 0
+    for m in program.modules.values():
+        for f in list(m.funcs.values()) + [f for c in m.classes.values() for f in c.methods.values()]:
+            try:
+                stats["conditionals_lifted"] += inline.lift_conditionals(f.node)
+            except Exception as e:
+                skipped.append("conditionals %s: %s" % (f.qualname, type(e).__name__))
+                continue
+    stats["tables_unrolled"] = 0
+    unrolled = []
+    for m in program.modules.values():
+        for f in list(m.funcs.values()) + [f for c in m.classes.values() for f in c.methods.values()]:
+            try:
+                k = inline.unroll_tables(f.node)
+            except Exception as e:
+                skipped.append("tables %s: %s" % (f.qualname, type(e).__name__))
+                continue
+            if k:
+                stats["tables_unrolled"] += k
+                unrolled.append(f)
+
     inl = inline.Inliner(resolve)
-    touched = []
+    touched = list(unrolled)
     for m in program.modules.values():
         funcs = list(m.funcs.values()) + [f for c in m.classes.values() for f in c.methods.values()]
         for f in funcs:
             before = inl.count
             inl.run(f)
             if inl.count != before:
-                touched.append(f)
+                if f not in touched:
+                    touched.append(f)
+                # named local steps that were copied to their call sites
+                for st in list(f.node.body):
+                    if isinstance(st, ast.FunctionDef) and (id(f.node), st.name) in nested_cache and nested_cache[(id(f.node), st.name)] is not None:
+                        if not any(isinstance(n, ast.Name) and n.id == st.name for n in ast.walk(f.node) if not inline._inside(n, st)):
+                            f.node.body.remove(st)
     for m in program.modules.values():
         for c in m.classes.values():
             for st in c.node.body:
